@@ -243,3 +243,125 @@ func init() {
 		return 6
 	}})
 }
+
+// c10FloodCase (UDP): a user with a valid credential whose server-side consumer
+// does not read fills its session's receive queue with in-order segments and
+// then ignores the zero window the server advertises, sending hundreds more.
+// Only that session may suffer.
+func c10FloodCase(c *Ctx) *Result {
+	r := rngFor(c.Seed, "C10-flood", c.Idx)
+	extra := pick(r, 300, 600, 1200)
+	params := map[string]interface{}{"segments_beyond_the_window": extra}
+	c.Out.Start("C10", fmt.Sprintf("C10-flood/%d/%d", c.Seed, c.Idx), c.Seed, params)
+	res := &Result{Params: params, Obs: map[string]float64{}}
+	users := []UserSpec{{"alice", "alice-secret"}, {"mallory", "mallory-secret"}}
+	env, err := NewEnv(EnvCfg{UDP: true, Users: users})
+	if err != nil {
+		res.Verdict, res.Detail = Inconclusive, err.Error()
+		return res
+	}
+	defer env.Close()
+	cm, _ := env.NewClient(0, "")
+	cc, err := dial(cm)
+	if err != nil {
+		res.Verdict, res.Detail = Inconclusive, err.Error()
+		return res
+	}
+	ch := env.Expect(sessionID(cc))
+	cc.Write([]byte("hello"))
+	var sc net.Conn
+	select {
+	case sc = <-ch:
+	case <-time.After(30 * time.Second):
+		res.Verdict, res.Detail = Inconclusive, "canary session not accepted"
+		return res
+	}
+	go func() {
+		b := make([]byte, 4096)
+		for {
+			n, err := sc.Read(b)
+			if n > 0 {
+				sc.Write(b[:n])
+			}
+			if err != nil {
+				return
+			}
+		}
+	}()
+	b5 := make([]byte, 5)
+	io.ReadFull(cc, b5)
+	// the hostile session: accepted by the application, never read
+	cred := refcodec.NewCred("mallory", "mallory-secret")
+	pc := env.Net.OpenPacket("10.0.6.6", 0)
+	defer pc.Close()
+	srv := env.Cfg.serverAddr()
+	key := refcodec.KeyAt(cred.Hashed, time.Now().Unix())
+	go func() {
+		b := make([]byte, 2000)
+		for {
+			if _, _, err := pc.ReadFrom(b); err != nil {
+				return
+			}
+		}
+	}()
+	sid := uint32(880000 + c.Idx)
+	hch := env.Expect(strconv.FormatUint(uint64(sid), 10))
+	go func() {
+		select {
+		case <-hch:
+		case <-time.After(300 * time.Second):
+		}
+	}()
+	send := func(m refcodec.Meta, p []byte) {
+		m.Timestamp = refcodec.Minute(time.Now().Unix())
+		pc.WriteTo(refcodec.EncodeDatagram(key, refcodec.RandNonce("mallory"), m, p, refcodec.BuildOpts{}), srv)
+	}
+	send(refcodec.Meta{Type: refcodec.OpenSessionRequest, SessionID: sid, Seq: 0}, []byte("x"))
+	time.Sleep(300 * time.Millisecond)
+	total := 4096 + extra
+	for k := 1; k <= total; k++ {
+		send(refcodec.Meta{Type: refcodec.DataC2S, SessionID: sid, Seq: uint32(k), UnAck: 1, Window: 4096}, []byte{byte(k)})
+		if k%64 == 0 {
+			time.Sleep(time.Millisecond)
+		}
+	}
+	res.Obs["hostile_messages"] = float64(total + 1)
+	failed := ""
+	var worst time.Duration
+	msg, back := make([]byte, 100), make([]byte, 100)
+	for t := 0; t < 30 && failed == ""; t++ {
+		t0 := time.Now()
+		cc.SetDeadline(t0.Add(30 * time.Second))
+		if _, err := cc.Write(msg); err != nil {
+			failed = "write: " + err.Error()
+			break
+		}
+		if _, err := io.ReadFull(cc, back); err != nil {
+			failed = "read: " + err.Error()
+		}
+		if d := time.Since(t0); d > worst {
+			worst = d
+		}
+		res.Obs["canary_exchanges"]++
+		time.Sleep(500 * time.Millisecond)
+	}
+	res.Obs["canary_completed"] = 1
+	res.Obs["canary_worst_rtt_s"] = worst.Seconds()
+	res.Shape = shapeHash("flood", extra)
+	if isVirtual && (failed != "" || worst > 5*time.Second) {
+		res.Verdict, res.Sig = Violated, "C10|udp|server|canary-user-disturbed|segments-beyond-a-zero-window"
+		res.Detail = fmt.Sprintf("after mallory sent %d in-order segments to a session nobody reads (%d beyond the advertised window), alice's exchange failed or stalled (%s, worst round trip %.1f s)", total, extra, failed, worst.Seconds())
+		return res
+	}
+	res.Verdict = Held
+	return res
+}
+
+func init() {
+	register(&Scenario{Name: "C10-flood", Run: c10FloodCase, Cases: func(t string) int {
+		if t == "thorough" {
+			return 60
+		}
+		return 4
+	}})
+}
